@@ -8,7 +8,7 @@
    PARTIAL beyond that: independence from placement and discovery order, and that every failure is logged with the file's path are
    decided by the metamorphic end-to-end oracle of tools/props/C10.py. *)
 From Coq Require Import Sorting.Permutation.
-From QV Require Import Model.Base Generated.Tables Model.Unit Model.Path Model.Names Model.Convert Model.Process Model.Output Proofs.C08 Proofs.C09run Proofs.C10 Proofs.C10run Proofs.C10pods Proofs.Prio.
+From QV Require Import Model.Base Generated.Tables Model.Unit Model.Path Model.Names Model.Convert Model.Process Model.Output Proofs.C08 Proofs.C09run Proofs.C10 Proofs.C10run Proofs.C10pods Proofs.Prio Model.ProcessD Proofs.RunTrees.
 
 Theorem C10_exit : forall dry fc mk a prev svcs,
   let '(effs, errs, exit) := output_phase dry fc mk a prev svcs in (exit = 1%N <-> errs <> []) /\ (exit = 0%N <-> errs = []).
@@ -92,3 +92,37 @@ Theorem C10_pod_independence_example :
   (exists svc sp, pod_result exp_small = Some (ROk svc sp) /\ pod_result exp_big_other = Some (ROk svc sp)) /\
   pod_result exp_big_joins <> pod_result exp_small.
 Proof. exact pod_independence_example. Qed.
+
+(* ---- the same on the run with drop-ins (Model/ProcessD.v); a file is (path, main text, drop-in texts in merge order) ---- *)
+Theorem C10_one_result_per_file_with_dropins : forall podman ex kf mn b (files : list (str * str * list str)),
+  map fst (fst (process_trees podman ex kf mn b files)) = map (fun f => fst (fst f)) files.
+Proof. exact trees_one_load_result_per_file. Qed.
+
+Theorem C10_each_unit_converted_once_with_dropins : forall podman ex kf mn b files,
+  map fst (snd (process_trees podman ex kf mn b files)) = map l_path (sort_units (tree_units b files)) /\
+  Permutation (tree_units b files) (sort_units (tree_units b files)).
+Proof. exact trees_each_unit_converted_once. Qed.
+
+Theorem C10_unloadable_files_change_nothing_with_dropins : forall podman ex kf mn b files1 files2 p t ds,
+  (forall u i, load_tree b p t ds <> LOk u i) ->
+  snd (process_trees podman ex kf mn b (files1 ++ (p, t, ds) :: files2)) = snd (process_trees podman ex kf mn b (files1 ++ files2)).
+Proof. exact trees_unloadable_file_changes_nothing. Qed.
+
+Theorem C10_added_files_change_nothing_with_dropins : forall podman exists_path kill_fixed mount_nl b (keepp : str -> bool) (files : list (str * str * list str)),
+  (forall p q, In p (map (fun f => fst (fst f)) files) -> In q (map (fun f => fst (fst f)) files) -> keepp p = true -> keepp q = false ->
+     forall f, file_name p = Some f -> file_name q <> Some f) ->
+  (forall x r, In (x, r) (tree_results podman exists_path kill_fixed mount_nl b (filter (fun f => keepp (fst (fst f))) files)) -> is_podu x = false -> exists svc sp, r = ROk svc sp) ->
+  Forall2 (fun a b => fst a = fst b /\ (is_podu (fst a) = false -> snd a = snd b))
+    (tree_results podman exists_path kill_fixed mount_nl b (filter (fun f => keepp (fst (fst f))) files))
+    (filter (fun p => keepp (l_path (fst p))) (tree_results podman exists_path kill_fixed mount_nl b files)).
+Proof. exact trees_added_files_change_nothing. Qed.
+
+Theorem C10_added_files_change_nothing_pods_with_dropins : forall podman exists_path kill_fixed mount_nl b (keepp : str -> bool) (files : list (str * str * list str)),
+  (forall p q, In p (map (fun f => fst (fst f)) files) -> In q (map (fun f => fst (fst f)) files) -> keepp p = true -> keepp q = false ->
+     forall f, file_name p = Some f -> file_name q <> Some f) ->
+  (forall x r, In (x, r) (tree_results podman exists_path kill_fixed mount_nl b (filter (fun f => keepp (fst (fst f))) files)) -> is_podu x = false -> exists svc sp, r = ROk svc sp) ->
+  let T := junk_pods (fun x => keepp (l_path x)) (sort_units (tree_units b files)) in
+  Forall2 (fun a b => fst a = fst b /\ (stable_unit T (fst a) = true -> forall svc sp, snd a = ROk svc sp -> snd b = ROk svc sp))
+    (tree_results podman exists_path kill_fixed mount_nl b (filter (fun f => keepp (fst (fst f))) files))
+    (filter (fun p => keepp (l_path (fst p))) (tree_results podman exists_path kill_fixed mount_nl b files)).
+Proof. exact trees_added_files_change_nothing_pods. Qed.
